@@ -93,6 +93,17 @@ class Sched:
         self.max_parked = max(self.max_parked, len(self.pending))
         await fut
 
+    def park_shared(self, label: Any) -> "asyncio.Future":
+        """a parked Future that the caller hands to SEVERAL awaiters (models a once-per-run backend look-up shared between evaluations)"""
+        fut = asyncio.get_running_loop().create_future()
+        if not self.enabled or label in self.sync_labels:
+            fut.set_result(None)
+            return fut
+        self.pending.append((label, fut))
+        self.registered += 1
+        self.max_parked = max(self.max_parked, len(self.pending))
+        return fut
+
     def _quiescent(self, loop) -> bool:
         ready = getattr(loop, "_ready", None)
         if ready is None:
